@@ -176,60 +176,8 @@ def check(model: Model, run: Run) -> None:
 
     # ------------------------------------------------------------------ R4 NLRI length: writer / reader
     run.rule('C16.R4', 'NLRI length: one byte below 240, two bytes 0xFnnn from 240 to 4095 inclusive; the decoder rebuilds the length with the same masks and an 8-bit shift of the high nibble', floor=3)
-    el = model.func(FLOW + '._encode_length')
+    flow_length_rule(model, run, folder)
     un = model.func(FLOW + '.unpack_nlri')
-    run.analysed(el)
-    run.analysed(un)
-    c = {k: folder.fold(mod.assigns[k], mod, None) for k in mod.assigns if k.startswith('FLOW_LENGTH_')}
-    ifs = [st for st in el.node.body if isinstance(st, ast.If) and isinstance(st.test, ast.Compare)]
-    compact = ifs[0] if ifs else None
-    ell = Loc(model, el)
-    cp = el.node.args.args[-1].arg
-    okc = compact is not None and isinstance(compact.test.ops[0], ast.Lt) and ell.expand(compact.test.left) == 'len(%s)' % cp and folder.fold(compact.test.comparators[0], mod, None) == 240 and ell.expand(compact.body[-1]) == 'return bytes([len(%s)]) + %s' % (cp, cp)
-    run.check(okc, el.qualname, 'compact form iff length < 240', el.loc(compact) if compact is not None else el.loc(), 'RFC 8955 4.1: one length byte below 240')
-    ext = ifs[1] if len(ifs) > 1 else None
-    okx = False
-    top = None
-    if ext is not None:
-        op = ext.test.ops[0]
-        k = folder.fold(ext.test.comparators[0], mod, None)
-        top = k if isinstance(op, ast.LtE) else (k - 1 if isinstance(op, ast.Lt) and isinstance(k, int) else None)
-        okx = ell.expand(ext.test.left) == 'len(%s)' % cp and ell.expand(ext.body[-1]) == "return pack('!H', len(%s) | FLOW_LENGTH_EXTENDED_VALUE << 8) + %s" % (cp, cp) and c.get('FLOW_LENGTH_EXTENDED_VALUE') == 0xF0
-    run.check(okx, el.qualname, 'extended form = 0xF000 | length on two bytes', el.loc(ext) if ext is not None else el.loc(), 'RFC 8955 4.1: 0xFnnn')
-    run.check(top == 4095, el.qualname, 'largest encodable NLRI length is %s' % top, el.loc(ext) if ext is not None else el.loc(), 'RFC 8955 4.1: the two-byte form covers 240 to 4095 inclusive; a rule of exactly 4095 bytes must be encodable')
-    # decoder
-    unl = Loc(model, un)
-    dparam = un.node.args.args[3].arg if len(un.node.args.args) > 3 else '?'
-    dec = []
-    lenv = None
-    okd = False
-    shift = None
-    for n in walk_no_nested(un.node):
-        if isinstance(n, ast.Assign) and isinstance(n.targets[0], ast.Name):
-            b = amatch('((V_l & E_m) << E_s) + V_x', n.value, {'V_l': n.targets[0].id})
-            if b is not None:
-                dec.append(n)
-                lenv = n.targets[0].id
-                shift = folder.fold(ast.parse(str(b['E_s']), mode='eval').body, mod, None)
-                lowmask = folder.fold(ast.parse(str(b['E_m']), mode='eval').body, mod, None)
-                # the low byte is the next byte of the buffer
-                second = any(isinstance(v, ast.Subscript) and dotted(v.value) == dparam and folder.fold(v.slice, mod, None) == 0 for v in unl.values(str(b['V_x'])))
-                okd = lowmask == 0x0F and second
-    marker = [n for n in walk_no_nested(un.node) if isinstance(n, ast.If) and lenv is not None and amatch('V_l & FLOW_LENGTH_EXTENDED_MASK == FLOW_LENGTH_EXTENDED_VALUE', n.test, {'V_l': lenv}) is not None]
-    okm = bool(marker) and c.get('FLOW_LENGTH_EXTENDED_MASK') == 0xF0 and c.get('FLOW_LENGTH_EXTENDED_VALUE') == 0xF0
-    run.check(okd and okm, un.qualname, 'two-byte form recognised by the 0xF0 nibble, low nibble kept', un.loc(dec[0]) if dec else un.loc(), 'the reader must invert the writer')
-    if shift != 8:
-        run.violation(
-            un.qualname,
-            'high nibble of the two-byte length shifted by %s' % shift,
-            un.loc(dec[0]) if dec else un.loc(),
-            "the encoder writes pack('!H', length | 0xF000): the low nibble of the first byte holds bits 11-8, so the decoder must "
-            'shift it by 8; with %s every FlowSpec NLRI of 240 to 4095 bytes decodes to a length above 65535 and is refused '
-            '(a 301 byte rule f1 2d ... "needs 65581 bytes")' % shift,
-        )
-    else:
-        run.ok('unpack_nlri: high nibble << 8')
-    run.check(any(isinstance(n, ast.If) and lenv is not None and (amatch('V_l > len(V_d)', n.test, {'V_l': lenv, 'V_d': dparam}) is not None or amatch('len(V_d) < V_l', n.test, {'V_l': lenv, 'V_d': dparam}) is not None) and isinstance(n.body[-1], ast.Raise) for n in walk_no_nested(un.node)), un.qualname, 'declared length checked against the data left', un.loc(), 'a truncated NLRI must be refused')
 
     # ------------------------------------------------------------------ R5 never a shorter rule
     run.rule('C16.R5', 'a malformed NLRI is never delivered as a shorter rule: undefined component and truncated value raise; no break/continue keeps partial rules; the value slice is compared with its announced width; unpack_nlri maps the failures to NLRI.INVALID', floor=4)
@@ -288,6 +236,33 @@ def check(model: Model, run: Run) -> None:
         run.check(got == want, ci.qualname, '(type, subtype) = (%s, %s)' % tuple(hex(x) if isinstance(x, int) else x for x in got), ci.loc(), 'RFC 8955 7 wants (%s, %s)' % (hex(want[0]), hex(want[1])))
 
     # ------------------------------------------------------------------ R7 AND bits as written (text parser)
+    run.rule(
+        'C16.R8',
+        'the flow text parser and the community / NLRI constructors agree on the order of their arguments: no call in the flow '
+        'parser, the flow NLRI or the extended-community package passes two same-typed values in the order opposite to the '
+        'parameters they are named after (make_traffic_action(sample, terminal))',
+        floor=1,
+    )
+    from .common import swapped_arguments_rule
+
+    swapped_arguments_rule(
+        model,
+        run,
+        ('exabgp.configuration.flow.', 'exabgp.bgp.message.update.nlri.flow.', 'exabgp.bgp.message.update.attribute.community.', 'exabgp.reactor.api.', 'exabgp.configuration.static.', 'exabgp.configuration.l2vpn.', 'exabgp.configuration.announce.'),
+        '`action sample` is sent as the terminal-action bit and `action terminal` as the sample bit',
+        floor=20,
+    )
+
+    run.rule(
+        'C16.R9',
+        'a copied flow rule is the same rule: __copy__ / __deepcopy__ of the NLRI classes give the copy every slot of the original '
+        '(a flow-vpn rule parsed from configuration keeps its route distinguisher in a slot of its own until it is packed)',
+        floor=10,
+    )
+    from .common import copy_completeness_rule
+
+    copy_completeness_rule(model, run, ('exabgp.bgp.message.update.nlri.',), 'a flow-vpn rule configured for a multi-session neighbor (the one place where configured routes are deep-copied) is announced without its route distinguisher', floor=10)
+
     run.rule('C16.R7', 'the text parser gives each operator the AND bit its own term carries: between two yielded operators the AND flag is always reassigned (AND after "&", NOP for a new list term)', floor=1)
     and_flag_rule(model, run)
 
@@ -341,3 +316,62 @@ def and_flag_rule(model: Model, run: Run) -> None:
             gc.loc(y),
             'a path reaches this operator without AND having been reassigned since the previous one: an "&" seen earlier leaks onto later OR terms, `[ >8080&<8088 =3128 ]` is sent as three ANDed tests',
         )
+
+def flow_length_rule(model: Model, run: Run, folder: Folder) -> None:
+    """shared by C16.R4 and C15.R10"""
+    mod = model.func(FLOW + '._encode_length').module
+    el = model.func(FLOW + '._encode_length')
+    un = model.func(FLOW + '.unpack_nlri')
+    run.analysed(el)
+    run.analysed(un)
+    c = {k: folder.fold(mod.assigns[k], mod, None) for k in mod.assigns if k.startswith('FLOW_LENGTH_')}
+    ifs = [st for st in el.node.body if isinstance(st, ast.If) and isinstance(st.test, ast.Compare)]
+    compact = ifs[0] if ifs else None
+    ell = Loc(model, el)
+    cp = el.node.args.args[-1].arg
+    okc = compact is not None and isinstance(compact.test.ops[0], ast.Lt) and ell.expand(compact.test.left) == 'len(%s)' % cp and folder.fold(compact.test.comparators[0], mod, None) == 240 and ell.expand(compact.body[-1]) == 'return bytes([len(%s)]) + %s' % (cp, cp)
+    run.check(okc, el.qualname, 'compact form iff length < 240', el.loc(compact) if compact is not None else el.loc(), 'RFC 8955 4.1: one length byte below 240')
+    ext = ifs[1] if len(ifs) > 1 else None
+    okx = False
+    top = None
+    if ext is not None:
+        op = ext.test.ops[0]
+        k = folder.fold(ext.test.comparators[0], mod, None)
+        top = k if isinstance(op, ast.LtE) else (k - 1 if isinstance(op, ast.Lt) and isinstance(k, int) else None)
+        okx = ell.expand(ext.test.left) == 'len(%s)' % cp and ell.expand(ext.body[-1]) == "return pack('!H', len(%s) | FLOW_LENGTH_EXTENDED_VALUE << 8) + %s" % (cp, cp) and c.get('FLOW_LENGTH_EXTENDED_VALUE') == 0xF0
+    run.check(okx, el.qualname, 'extended form = 0xF000 | length on two bytes', el.loc(ext) if ext is not None else el.loc(), 'RFC 8955 4.1: 0xFnnn')
+    run.check(top == 4095, el.qualname, 'largest encodable NLRI length is %s' % top, el.loc(ext) if ext is not None else el.loc(), 'RFC 8955 4.1: the two-byte form covers 240 to 4095 inclusive; a rule of exactly 4095 bytes must be encodable')
+    # decoder
+    unl = Loc(model, un)
+    dparam = un.node.args.args[3].arg if len(un.node.args.args) > 3 else '?'
+    dec = []
+    lenv = None
+    okd = False
+    shift = None
+    for n in walk_no_nested(un.node):
+        if isinstance(n, ast.Assign) and isinstance(n.targets[0], ast.Name):
+            b = amatch('((V_l & E_m) << E_s) + V_x', n.value, {'V_l': n.targets[0].id})
+            if b is not None:
+                dec.append(n)
+                lenv = n.targets[0].id
+                shift = folder.fold(ast.parse(str(b['E_s']), mode='eval').body, mod, None)
+                lowmask = folder.fold(ast.parse(str(b['E_m']), mode='eval').body, mod, None)
+                # the low byte is the next byte of the buffer
+                second = any(isinstance(v, ast.Subscript) and dotted(v.value) == dparam and folder.fold(v.slice, mod, None) == 0 for v in unl.values(str(b['V_x'])))
+                okd = lowmask == 0x0F and second
+    marker = [n for n in walk_no_nested(un.node) if isinstance(n, ast.If) and lenv is not None and amatch('V_l & FLOW_LENGTH_EXTENDED_MASK == FLOW_LENGTH_EXTENDED_VALUE', n.test, {'V_l': lenv}) is not None]
+    okm = bool(marker) and c.get('FLOW_LENGTH_EXTENDED_MASK') == 0xF0 and c.get('FLOW_LENGTH_EXTENDED_VALUE') == 0xF0
+    run.check(okd and okm, un.qualname, 'two-byte form recognised by the 0xF0 nibble, low nibble kept', un.loc(dec[0]) if dec else un.loc(), 'the reader must invert the writer')
+    if shift != 8:
+        run.violation(
+            un.qualname,
+            'high nibble of the two-byte length shifted by %s' % shift,
+            un.loc(dec[0]) if dec else un.loc(),
+            "the encoder writes pack('!H', length | 0xF000): the low nibble of the first byte holds bits 11-8, so the decoder must "
+            'shift it by 8; with %s every FlowSpec NLRI of 240 to 4095 bytes decodes to a length above 65535 and is refused '
+            '(a 301 byte rule f1 2d ... "needs 65581 bytes")' % shift,
+        )
+    else:
+        run.ok('unpack_nlri: high nibble << 8')
+    run.check(any(isinstance(n, ast.If) and lenv is not None and (amatch('V_l > len(V_d)', n.test, {'V_l': lenv, 'V_d': dparam}) is not None or amatch('len(V_d) < V_l', n.test, {'V_l': lenv, 'V_d': dparam}) is not None) and isinstance(n.body[-1], ast.Raise) for n in walk_no_nested(un.node)), un.qualname, 'declared length checked against the data left', un.loc(), 'a truncated NLRI must be refused')
+
